@@ -15,12 +15,14 @@ import (
 // printRep prints what the monitors report (dev aid).
 type printRep struct{ counts map[string]int64 }
 
-func (p *printRep) Violation(sig, what string, w any) { fmt.Printf("VIOLATION %s: %s\n   %v\n", sig, what, w) }
-func (p *printRep) Count(name string, n int64)         { p.counts[name] += n }
-func (p *printRep) Distinct(set, key string)           {}
-func (p *printRep) Nontrivial(key string)              {}
-func (p *printRep) Sample(v any)                       {}
-func (p *printRep) Inconclusive(msg string)            { fmt.Println("INCONCLUSIVE", msg) }
+func (p *printRep) Violation(sig, what string, w any) {
+	fmt.Printf("VIOLATION %s: %s\n   %v\n", sig, what, w)
+}
+func (p *printRep) Count(name string, n int64) { p.counts[name] += n }
+func (p *printRep) Distinct(set, key string)   {}
+func (p *printRep) Nontrivial(key string)      {}
+func (p *printRep) Sample(v any)               {}
+func (p *printRep) Inconclusive(msg string)    { fmt.Println("INCONCLUSIVE", msg) }
 
 func main() {
 	seed := flag.Uint64("seed", 1, "")
